@@ -230,8 +230,8 @@ def _rat(v):
 
 def _xbin(op, a, b):
     """The operator on exact rationals: int/int and negative integer powers stay Fractions."""
-    if op == "/" and _rat(a) and _rat(b):
-        return F(a) / F(b)
+    if op == "/" and isinstance(a, (int, F)) and isinstance(b, (int, F)):
+        return F(a) / F(b)          # (1996 / True is int / int as well)
     if op == "**" and _rat(a) and isinstance(b, int) and not isinstance(b, bool) and b < 0:
         return F(a) ** b
     if op == "**" and _rat(a) and _rat(b) and a == 1:
@@ -686,6 +686,29 @@ def workload(ctx):
                 ctx.node("op:" + uop)
                 ctx.run("C03.program", (prog, nenv))
     ctx.set_exhaustive("(unary operator, kind)")
+    # one level deeper, exhaustively: a unary operator or a binary minus / plus / times applied
+    # to the RESULT of every (binary operator, kind, kind) -- what a node does when it is itself
+    # negated or subtracted (-(7 // x), y - 7 % x, 2 * (x / 3))
+    small = ["x", "y", "0", "1", "-1", "2", "-3", "1.5", "True"]
+    small = [k for k in small if k in KINDS]
+    for op in BIN:
+        for lk in small:
+            for rk in small:
+                if lk not in EXPR_KINDS and rk not in EXPR_KINDS:
+                    continue
+                inner = ("bin", op, ("leaf", lk), ("leaf", rk))
+                outers = [("un", u, inner) for u in UN] + \
+                    [("bin", o2, ("leaf", "y"), inner) for o2 in ("-", "+", "*")] + \
+                    [("bin", o2, ("leaf", "2"), inner) for o2 in ("-", "*")] + \
+                    [("bin", "-", inner, ("leaf", "y"))]
+                for prog in outers:
+                    if not ctx.mine("outer-of-triple"):
+                        continue
+                    ctx.case(("prog", prog), True, n=0)
+                    ctx.count("exhaustive_outer_of_triples")
+                    ctx.run("C03.program", (prog, ctx.pick(14, 30)))
+    ctx.set_exhaustive("(unary or +,-,* with a plain operand) over (binary operator, kind, kind), "
+                       "9 plain kinds")
     for lk in kinds:
         for rk in kinds:
             if (lk in EXPR_KINDS or rk in EXPR_KINDS) and ctx.mine("ordering"):
@@ -718,5 +741,6 @@ def workload(ctx):
             ctx.sample("random-program", show(prog))
         ctx.run("C03.program", (prog, ctx.pick(12, 30)))
     ctx.floor("exhaustive_triples", 12 * 200)
+    ctx.floor("exhaustive_outer_of_triples", 3000)
     ctx.floor("compared", 50000)
     ctx.floor("ordering_compares", 1000)
